@@ -71,7 +71,13 @@ func DefaultCase(r *rand.Rand, name string, o DefaultOpts) *Case {
 		named := r.Intn(2) == 0
 		var sT, tT *Type
 		tyS, lit := "", ""
-		if isMap {
+		isArr := !isMap && r.Intn(3) == 0
+		if isArr {
+			// an array source never uses FUNC (there is no nil source); the elements still need T -> *U conversions
+			named = false
+			sT, tT = Array(2, Slice(Basic("int"))), Slice(Ptr(Slice(Basic("int"))))
+			tyS, lit = "[]*[]int", "[]*[]int{nil}"
+		} else if isMap {
 			sT, tT = Map(Basic("string"), Named(inS)), Map(Basic("string"), Named(inT))
 			tyS, lit = "map[string]ty.InnerT", "map[string]ty.InnerT{\"d\": {X: 5}}"
 		} else {
@@ -89,7 +95,7 @@ func DefaultCase(r *rand.Rand, name string, o DefaultOpts) *Case {
 		if fnErr {
 			ret, body = "("+tyS+", error)", body+", nil"
 		}
-		conv.Files["ctor.go"] = fmt.Sprintf("package conv\n\nimport \"%s/ty\"\n\nfunc NewT() %s {\n\t%s\n}\n", c.Root, ret, body)
+		conv.Files["ctor.go"] = fmt.Sprintf("package conv\n\nimport \"%s/ty\"\n\nvar _ ty.InnerT\n\nfunc NewT() %s {\n\t%s\n}\n", c.Root, ret, body)
 		cv := &Converter{Pkg: conv, File: "conv.go", Name: "Converter", Format: o.Format, OutPkgPath: "conv/generated", OutPkgName: "generated", ImplName: "ConverterImpl",
 			Callables: map[string]string{"fn:NewT": "conv.NewT"}, GlueImports: []string{fmt.Sprintf("conv %q", c.Root+"/conv")}}
 		if o.Format == "variables" {
@@ -106,7 +112,7 @@ func DefaultCase(r *rand.Rand, name string, o DefaultOpts) *Case {
 		cv.Spec = &vref.Spec{Seed: o.Seed, NValues: nv, Monitors: []string{"default"}, Funcs: []*vref.FuncSpec{{Key: "fn:NewT", Kind: "default", Roles: []string{}}}}
 		c.Convs = []*Converter{cv}
 		c.Patterns = []string{"./conv"}
-		c.Feature("shape", fmt.Sprintf("container,map=%v,named=%v", isMap, named))
+		c.Feature("shape", fmt.Sprintf("container,map=%v,named=%v,array=%v", isMap, named, isArr))
 		c.Feature("fn", fmt.Sprintf("source=false,ctx=false,err=%v", fnErr))
 		c.Feature("format", o.Format)
 		return c
